@@ -126,7 +126,17 @@ def regenerate():
                 failed.append(name)
                 msgs.append("generator %s failed:\n%s" % (name, out[-2000:]))
         for f in sorted(glob.glob(os.path.join(out_dir, "*.v"))):
-            write_if_changed(os.path.join(COQ, "gen", os.path.basename(f)), open(f).read())
+            dst = os.path.join(COQ, "gen", os.path.basename(f))
+            write_if_changed(dst, open(f).read())
+            if ALT:
+                # compiled files copied from the main tree were built against the main tree's
+                # tables: force make to rebuild every table that differs and its dependents
+                try:
+                    same = open(os.path.join(COQ_MAIN, "gen", os.path.basename(f))).read() == open(dst).read()
+                except OSError:
+                    same = False
+                if not same:
+                    os.utime(dst, None)
     return "core" not in failed, "\n".join(msgs), failed
 
 
